@@ -319,11 +319,11 @@ func oneShape(w *WorldDesc, rpc *spec.RPC, states map[string]string, lname strin
 		}
 		st := states[lname]
 		t := h.Type
-		if t == "" {
-			t = "unset"
+		if t == "" || t == "string" {
+			t = "string" // an unset type means string
 		}
 		if h.Format != "" {
-			t += "/" + h.Format
+			t = h.Format
 		}
 		switch st {
 		case "invalid", "valid":
